@@ -1148,6 +1148,12 @@ def rules_iter(prog, res):
         res.missing("I-iter", "MsgFrameIter")
         return
     fields = [x["name"] for x in adt["variants"][0]["fields"]]
+    if "data" not in fields or "index" not in fields:
+        # both engines (I-sem and this template) read the iterator through its two fields `data` (the whole input) and `index` (bytes consumed);
+        # another representation of the same state (the unscanned tail plus the total length, ...) is not decided - fail closed, one obligation
+        res.ob("I-iter", "iter | MsgFrameIter keeps its state as {data: the input, index: bytes consumed} (the representation both engines read)", False,
+               "fields are %s: next() / consumed() over this representation are not decided by I-sem or the template" % fields, f.loc)
+        return
     i_data, i_index = fields.index("data"), fields.index("index")
     loc = lambda line=None: {"file": f.loc["file"], "line": line or f.loc["line"]}
     self_obj = mk("mem", mk("memval", mk("mem", fa.start_val(1, 0))))   # **self
